@@ -88,17 +88,8 @@ Proof.
   eexists. split; [vm_compute; reflexivity|]. split; reflexivity.
 Qed.
 
-(** ---- atom names (set_atom_names_atomistic as repaired in /repo 8dbd471: an atom shared through the squash operator is
-    named once, later indices step over taken names) *)
-(** names_unique_per_coarse_node: the names of each coarse node's atoms, read from the returned fine graph, are pairwise
-    distinct - provided that, whenever a coarse node is processed, its already-named atoms carry distinct names
-    ([used_distinct]; it can only fail when a coarse node shares atoms with two DIFFERENT earlier coarse nodes), the
-    atoms of a coarse node are listed once, and the element strings contain no digit *)
-Theorem C12_names_unique_per_coarse_node : forall (E : list pystr), Forall digit_free E ->
-  forall mol meta fgs mol' fgs', set_atom_names mol meta fgs = Ok (mol', fgs') ->
-  used_distinct (fraglist_of meta fgs) (mol, fgs, []) -> (forall g, In g (fraglist_of meta fgs) -> NoDup (snd g)) -> elemsE E mol ->
-  forall g, In g (fraglist_of meta fgs) -> NoDup (map (name_in mol') (snd g)).
-Proof. intros E HE. exact (names_unique_per_coarse_node E (label_inj_list E HE)). Qed.
+(** ---- atom names (set_atom_names_atomistic as repaired in /repo 8dbd471 + e15e5bd: an atom shared through the squash operator
+    is named once, later indices step over taken names, names of shared atoms are kept apart over the whole molecule) *)
 (** element ++ str(index) determines element and index when the element has no digit *)
 Theorem C12_label_injective : forall e e' i j, digit_free e -> digit_free e' -> 0 <= i -> 0 <= j ->
   atom_label e i = atom_label e' j -> e = e' /\ i = j.
@@ -124,14 +115,14 @@ Example C12_shared_atom_named_once :
   names_after [atom 0 "C" [0]; atom 1 "C" [0; 1]; atom 2 "C" [1]] (cmeta [0; 1]) [(0, cgraph [0; 1]); (1, cgraph [1; 2])]
   = Ok ([Some (VStr (S "C0")); Some (VStr (S "C1")); Some (VStr (S "C2"))], true).
 Proof. vm_compute. reflexivity. Qed.
-(** the residual class shared_from_two_owners ({[#A]1.[#B][#K]1}.{#A=CC[!],#B=CC[!],#K=[!]CC[!]}, heavy atoms): K holds atom 1
-    (first named in A) and atom 3 (first named in B), both called C1: the faithful model REFUTES uniqueness here *)
-Theorem C12_names_refuted :
-  two_owners [(0, cgraph [0; 1]); (1, cgraph [2; 3]); (2, cgraph [1; 3])] = true /\
+(** the former witness of class shared_from_two_owners ({[#A]1.[#B][#K]1}.{#A=CC[!],#B=CC[!],#K=[!]CC[!]}, heavy atoms): K holds
+    atom 1 (first named in A) and atom 3 (first named in B); since /repo e15e5bd the names of shared atoms are kept apart over
+    the whole molecule, so atom 3 becomes C2 and K is unique *)
+Example C12_two_owners_named_apart :
   names_after [atom 0 "C" [0]; atom 1 "C" [0; 2]; atom 2 "C" [1]; atom 3 "C" [1; 2]] (cmeta [0; 1; 2])
               [(0, cgraph [0; 1]); (1, cgraph [2; 3]); (2, cgraph [1; 3])]
-  = Ok ([Some (VStr (S "C0")); Some (VStr (S "C1")); Some (VStr (S "C0")); Some (VStr (S "C1"))], false).
-Proof. split; vm_compute; reflexivity. Qed.
+  = Ok ([Some (VStr (S "C0")); Some (VStr (S "C1")); Some (VStr (S "C0")); Some (VStr (S "C2"))], true).
+Proof. vm_compute. reflexivity. Qed.
 
 (** ---- input-only dependence *)
 (** frag_order_irrelevant: the order of the definitions in a fragment block with unique names is immaterial
@@ -178,9 +169,7 @@ Theorem C12_resolve_all_is_driver_instance : forall trs st, inv trs st -> st_cou
   end.
 Proof. exact resolve_all_is_instance. Qed.
 
-Print Assumptions C12_names_unique_per_coarse_node.
 Print Assumptions C12_label_injective.
-Print Assumptions C12_names_refuted.
 Print Assumptions C12_sort_keys.
 Print Assumptions C12_sort_sorted.
 Print Assumptions C12_block_contiguous.
